@@ -3210,3 +3210,47 @@ def point_ops(r: R, chk, quals: List[str], rule="POINT-OPS", floor: int = 1):
     chk.ob(rule, f"positive control of the scanner ({len(ctl)} of 3 operators on points recognised)", len(ctl) == 3, loc="", detail="" if len(ctl) == 3 else "the positive control of the rule is not recognised any more")
     chk.floor(rule, "functions examined", n, floor)
     return n
+
+
+# ---------------------------------------------------------------------------------------------------------
+# NAN-REJECT: the validity predicate of a node is false for a NaN
+def nan_reject(r: R, chk, qual: str, rule="NAN-REJECT"):
+    """`valid(node)` decides whether span / mult / evaluation may go on; the binary search of span never ends for a node that is
+    not ordered with the knots (every comparison with a NaN is false).  On every path to `return True` a test about the node must
+    have come out in a way a NaN cannot produce: an order comparison or `==` that is true, a `!=` that is false, isnan false,
+    isfinite true.  Excluding the two outsides (`node < umin or umax < node` false) lets a NaN through."""
+    import re
+
+    from .c08 import path_facts
+
+    ctx = r.root(qual)
+    fi = ctx.fi
+    node = next((p for p in fi.params if p not in ("self", "cls")), None)
+    n = 0
+    for nd in r.stmt_nodes(ctx):
+        if not (isinstance(nd.ast, ast.Return) and isinstance(nd.ast.value, ast.Constant) and nd.ast.value.value is True):
+            continue
+        n += 1
+        facts = path_facts(ctx, nd.id)
+        ok = False
+        for txt, pol in facts:
+            try:
+                e = ast.parse(txt, mode="eval").body
+            except SyntaxError:
+                continue
+            if not any(isinstance(y, ast.Name) and y.id == node for y in ast.walk(e)):
+                continue
+            if isinstance(e, ast.Compare):
+                if pol and all(isinstance(o, (ast.Lt, ast.LtE, ast.Gt, ast.GtE, ast.Eq)) for o in e.ops):
+                    ok = True
+                if not pol and len(e.ops) == 1 and isinstance(e.ops[0], ast.NotEq):
+                    ok = True
+            elif isinstance(e, ast.Call):
+                fn = seg(e.func).split(".")[-1]
+                if (pol and fn == "isfinite") or (not pol and fn == "isnan"):
+                    ok = True
+        chk.ob(rule, f"{qual}: `return True` only for a node that is ordered with the knots", ok, loc=r.loc(ctx, nd.ast),
+               detail="" if ok else f"{qual}: `return True` is reached with no test that a NaN fails (on the way: {', '.join(sorted(('' if p_ else 'not ') + t_ for t_, p_ in facts)) or 'none'}): both `{node} < umin` and `umax < {node}` are false for a NaN, the node counts as valid, and the binary search of span() never ends — curve(float('nan')) hangs instead of raising ValueError",
+               func=qual, construct="NaN passes the validity test")
+    chk.floor(rule, f"`return True` sites of {qual}", n, 1)
+    return n
